@@ -388,7 +388,7 @@ func (s *mg) define(n ast.Node, name string, typ *ty) {
 	if s.closures[name] != nil {
 		s.fail(n, "%s redeclares a closure", name)
 	}
-	s.t.env[name] = typ
+	s.t.bind(name, typ, n.Pos())
 	s.declDepth[name] = s.depth
 	s.wrote(name)
 	delete(s.stale, name)
@@ -412,7 +412,7 @@ func (s *mg) envVars() []string {
 		}
 		out = append(out, v)
 	}
-	sort.Strings(out)
+	s.t.sortDecl(out) // the fields (declaration order of the struct), then parameters and locals where they are declared
 	return out
 }
 
